@@ -69,6 +69,12 @@ func (r *Replayer) Replay(process func(record []byte) error) (err error) {
 				break
 			}
 
+			// the process died while the last record was being written: the torn record was never acknowledged
+			// as durable in full, the log ends before it
+			if lastFile && errors.Is(err, io.ErrUnexpectedEOF) {
+				break
+			}
+
 			if err != nil {
 				return fmt.Errorf("error while reading WAL records under '%s': %w", path, err)
 			}
